@@ -177,6 +177,13 @@ K_READ_IO = dict(name="K-core::ctl_io", package="rustzx-core", features="full",
                      "configuration and device state; the clock dimension of the floating bus is the Verus contract of floating_bus_value"],
                  timeout=3000)
 
+K_TRAP = dict(name="K-core::trap", package="rustzx-core", features="full", harnesses=["pc_callback_trap"],
+              functions={"pc_callback_trap": ["ZXController::pc_callback"]}, assumptions=CORE_ASSUME)
+K_ROM = dict(name="K-core::rom", package="rustzx-core", features="full", harnesses=["rom_window", "page_slices"], jobs=2,
+             functions={"rom_window": ["ZXController::load_default_rom", "ZXController::read_internal/write_internal (ROM window)"],
+                        "page_slices": ["ZXMemory::ram_page_data", "ZXMemory::ram_page_data_mut", "ZXMemory::rom_page_data_mut"]},
+             assumptions=CORE_ASSUME + CTL_STUBS + ["embedded ROM set (feature embedded-roms); a host-supplied ROM set goes through read_exact into rom_page_data_mut (contracts in units hostio / K-core::memory)"])
+
 K_INPUT = dict(name="K-core::input", package="rustzx-core", features="full",
                harnesses=["key_table_and_send_key", "sinclair_table_and_send", "compound_keys", "kempston_joy", "kempston_mouse"],
                functions={"key_table_and_send_key": ["ZXKey::row_id", "ZXKey::mask", "ZXKey::half_port", "ZXController::send_key"],
@@ -371,8 +378,9 @@ PROPS = {
     "C10": dict(
         level="proof",
         claim="Deductive proof (Verus, all images/block lengths/request parameters, loops by invariant): the real Tap block reader delivers exactly the bytes of the next TAP block (2-byte LE length + payload, 128-byte refill windows are ordinary cases of the representation invariant), and the real fast_load_tap leaves memory, IX, DE and carry equal to a spec function transcribing the ROM's LD-BYTES, performs the RET, selects exactly the next block, and leaves the CPU untouched when no block is left.",
-        note="Assumes: host asset contract; the ROM routine is represented by spec fn ld_bytes (transcribed from the ROM listing); cross-unit assume/guarantee between units tape, fastload and ctl (reader and write_internal contracts restated abstractly); the LD-BREAK trap condition (pc_callback) is covered under C07/C15 harnesses, not here; enum_dispatch forwarding.",
+        note="Assumes: host asset contract; the ROM routine is represented by spec fn ld_bytes (transcribed from the ROM listing); cross-unit assume/guarantee between units tape, fastload and ctl (reader and write_internal contracts restated abstractly); the LD-BREAK trap condition (pc_callback) is a Kani harness on the real controller; enum_dispatch forwarding.",
         verus=["tape", "fastload"],
+        kani=[K_TRAP],
         explanation="tape block reader refinement + LD-BYTES simulation as loop invariant of the real fast_load_tap",
         not_mechanised=["sequences of requests: each request is one call from any reader state satisfying reader_inv (induction over requests not a Verus lemma)"],
     ),
@@ -403,6 +411,7 @@ PROPS = {
         claim="Deductive proof (Verus, all addresses/values/latch histories by invariant induction) that ZXMemory read/write implement the (page,offset) view, that a write is read back through exactly the windows mapping the same bank, that ROM windows ignore writes, and that write_7ffd maintains the paging invariant map = f(machine, latch) with the lock bit; syntactic frame obligations pin the only callers of remap and the only writers of the latch.",
         note="Assumes: extraction rules; ROM *contents* equal the supplied image only through rom_page_data_mut's range contract (host-supplied ROM loading loop is covered under C15); SNA/SZX loaders reach paging only through write_7ffd (scan).",
         verus=["ctl"],
+        kani=[K_ROM],
         scans=[scan_remap_callers, scan_paging_writers],
         explanation="memory map / paging invariant / alias lemma as postconditions of the real ZXMemory and ZXController functions",
         not_mechanised=["induction over histories is the standard argument: every operation preserves inv() (each obligation is proved); the induction itself is not a Verus lemma"],
